@@ -78,4 +78,354 @@ Section Roundtrip.
     - rewrite rd_int by (unfold in_signed; change (32 - 1) with 31; lia).
       rewrite bind_ok with (a := (-1, rest)) by reflexivity. reflexivity.
   Qed.
+
+  Lemma step_int {C} n rest (K : Z * bytes -> M C) :
+    in_signed 32 n -> bind (rd (c_int cfg) (enc_varint n ++ rest)) K = K (n, rest).
+  Proof. intros H. apply bind_ok. apply rd_int. assumption. Qed.
+  Lemma step_ts {C} n rest (K : Z * bytes -> M C) :
+    in_signed 64 n -> bind (rd (c_ts cfg) (enc_varint n ++ rest)) K = K (n, rest).
+  Proof. intros H. apply bind_ok. apply rd_ts. assumption. Qed.
+
+  Lemma step_nb {C} o rest (K : option bytes * bytes -> M C) : olen o < 2 ^ 31 ->
+    out (bind (rd (c_int cfg) (enc_nbytes o ++ rest))
+              (fun p => let '(l, b) := p in bind (read_nbytes cfg l b) K)) = out (K (o, rest)).
+  Proof.
+    intros Hl. pose proof (nbytes_rt o rest Hl) as H.
+    destruct o as [b|]; cbn [enc_nbytes olen] in *.
+    - rewrite <- app_assoc in *. pose proof (zlen_nonneg b).
+      rewrite step_int in H by (apply signed32_len; lia). cbn [fst snd] in H.
+      rewrite step_int by (apply signed32_len; lia).
+      apply out_bind_ok. exact H.
+    - rewrite step_int in H by (unfold in_signed; change (32 - 1) with 31; lia). cbn [fst snd] in H.
+      rewrite step_int by (unfold in_signed; change (32 - 1) with 31; lia).
+      apply out_bind_ok. exact H.
+  Qed.
+
+  Lemma hdr_loop_rt hs : forall fuel rest, Forall header_wf hs -> (length hs <= fuel)%nat ->
+    out (hdr_loop cfg fuel (zlen hs) (enc_headers hs ++ rest)) = Ok hs.
+  Proof.
+    induction hs as [|h hs IH]; intros fuel rest Hwf Hf.
+    - destruct fuel; reflexivity.
+    - destruct fuel as [|f]; [cbn [length] in Hf; lia|]. cbn [hdr_loop]. rewrite zlen_cons.
+      pose proof (zlen_nonneg hs) as Hnn.
+      destruct (1 + zlen hs <=? 0) eqn:E; [lia|].
+      inversion Hwf as [|? ? Hh Hwf']; subst. destruct Hh as [Hk [Hv [Hkl Hvl]]].
+      destruct h as [k v]. cbn [fst snd] in *.
+      unfold enc_headers. cbn [map concat]. fold (enc_headers hs). unfold enc_header. cbn [fst snd].
+      rewrite <- !app_assoc. rewrite (app_assoc (enc_varint (zlen k)) k).
+      change (enc_varint (zlen k) ++ k) with (enc_nbytes (Some k)).
+      rewrite step_nb by (cbn [olen]; lia). rewrite step_nb by assumption.
+      replace (1 + zlen hs - 1) with (zlen hs) by lia.
+      rewrite (out_bind_ok _ _ _ (IH f rest Hwf' ltac:(cbn [length] in Hf; lia))). reflexivity.
+  Qed.
+
+  Lemma decode_record_rt base fts r rest :
+    record_wf r -> in_signed 64 (base + kr_off_delta r) -> in_signed 64 (fts + kr_ts_delta r) ->
+    out (decode_record cfg base fts (enc_record r ++ rest)) = Ok (to_drec base fts r, rest).
+  Proof.
+    intros [Ha [Hts' [Hod [Hk [Hv [Hkl [Hvl [Hhs [Hhl Hbl]]]]]]]]] Ho Ht.
+    unfold decode_record, enc_record. rewrite <- app_assoc.
+    pose proof (zlen_nonneg (enc_record_tail r)) as Hnn.
+    assert (Hb : zlen (enc_record_body r) = 1 + zlen (enc_record_tail r)) by (unfold enc_record_body; apply zlen_cons).
+    rewrite step_int by (apply signed32_len; lia).
+    destruct (zlen (enc_record_body r) <? 0) eqn:E1; [lia|].
+    assert (Hz : (zlen (enc_record_body r ++ rest) <? zlen (enc_record_body r)) = false).
+    { rewrite zlen_app. pose proof (zlen_nonneg rest). lia. }
+    rewrite Hz, andb_false_r.
+    rewrite make_ok by (unfold max_alloc; change (2 ^ 48) with (2 ^ 31 * 2 ^ 17); lia).
+    rewrite out_bind_ok with (a := tt) by reflexivity.
+    rewrite take_app, drop_app. unfold enc_record_body at 1. unfold enc_record_tail.
+    rewrite step_ts by assumption. rewrite step_int by assumption.
+    rewrite step_nb by assumption. rewrite step_nb by assumption.
+    pose proof (zlen_nonneg (kr_headers r)) as Hh0.
+    rewrite step_int by (apply signed32_len; lia).
+    pose proof (enc_headers_len (kr_headers r)) as Hel.
+    destruct ((zlen (kr_headers r) <? 0) || (zlen (enc_headers (kr_headers r)) <? zlen (kr_headers r))) eqn:E2; [lia|].
+    rewrite andb_false_r.
+    rewrite make_ok by (unfold max_alloc; change (2 ^ 48) with (2 ^ 31 * 2 ^ 17); lia).
+    rewrite out_bind_ok with (a := tt) by reflexivity.
+    assert (HL : out (hdr_loop cfg (S (length (enc_headers (kr_headers r)))) (zlen (kr_headers r))
+                                (enc_headers (kr_headers r))) = Ok (kr_headers r)).
+    { pose proof (hdr_loop_rt (kr_headers r) (S (length (enc_headers (kr_headers r)))) [] Hhs) as HL.
+      rewrite app_nil_r in HL. apply HL. unfold zlen in Hel. lia. }
+    rewrite (out_bind_ok _ _ _ HL).
+    cbn [out ret]. unfold to_drec. rewrite !to_signed_wrap by (assumption || lia). reflexivity.
+  Qed.
+
+  Lemma rec_loop_rt base fts rs : forall fuel rest,
+    Forall record_wf rs ->
+    Forall (fun r => in_signed 64 (base + kr_off_delta r) /\ in_signed 64 (fts + kr_ts_delta r)) rs ->
+    (length rs <= fuel)%nat ->
+    out (rec_loop cfg fuel (zlen rs) base fts (enc_records rs ++ rest)) = Ok (map (to_drec base fts) rs).
+  Proof.
+    induction rs as [|r rs IH]; intros fuel rest Hwf Hr Hf.
+    - destruct fuel; reflexivity.
+    - destruct fuel as [|f]; [cbn [length] in Hf; lia|]. cbn [rec_loop]. rewrite zlen_cons.
+      pose proof (zlen_nonneg rs) as Hnn.
+      destruct (1 + zlen rs <=? 0) eqn:E; [lia|].
+      inversion Hwf as [|? ? Hw Hwf']; subst. inversion Hr as [|? ? [Ho Ht] Hr']; subst.
+      unfold enc_records. cbn [map concat]. fold (enc_records rs). rewrite <- app_assoc.
+      rewrite (out_bind_ok _ _ _ (decode_record_rt base fts r _ Hw Ho Ht)).
+      replace (1 + zlen rs - 1) with (zlen rs) by lia.
+      rewrite (out_bind_ok _ _ _ (IH f rest Hwf' Hr' ltac:(cbn [length] in Hf; lia))). reflexivity.
+  Qed.
 End Roundtrip.
+
+(* ---------- the 61-byte batch header ---------- *)
+Definition hdr61 (base len ple crcv attrs lod fts mts pid pep seq cnt : Z) (rest : bytes) : bytes :=
+  be_put 8 base ++ be_put 4 len ++ be_put 4 ple ++ 2 :: be_put 4 crcv ++ be_put 2 attrs ++ be_put 4 lod ++
+  be_put 8 fts ++ be_put 8 mts ++ be_put 8 pid ++ be_put 2 pep ++ be_put 4 seq ++ be_put 4 cnt ++ rest.
+
+Lemma zlen_be_put n v : zlen (be_put n v) = Z.of_nat n.
+Proof. unfold zlen. rewrite be_put_length. reflexivity. Qed.
+
+Lemma hdr61_len base len ple crcv attrs lod fts mts pid pep seq cnt rest :
+  zlen (hdr61 base len ple crcv attrs lod fts mts pid pep seq cnt rest) = 61 + zlen rest.
+Proof. unfold hdr61. rewrite !zlen_app, zlen_cons, !zlen_app, !zlen_be_put. lia. Qed.
+
+Lemma hdr61_fields base len ple crcv attrs lod fts mts pid pep seq cnt rest :
+  let batch := hdr61 base len ple crcv attrs lod fts mts pid pep seq cnt rest in
+  be_u (slice batch 0 8) = base mod 256 ^ Z.of_nat 8 /\
+  be_u (slice batch 8 12) = len mod 256 ^ Z.of_nat 4 /\
+  be_u (slice batch 21 23) = attrs mod 256 ^ Z.of_nat 2 /\
+  be_u (slice batch 27 35) = fts mod 256 ^ Z.of_nat 8 /\
+  be_u (slice batch 35 43) = mts mod 256 ^ Z.of_nat 8 /\
+  be_u (slice batch 57 61) = cnt mod 256 ^ Z.of_nat 4 /\
+  skipn 61 batch = rest /\ zlen batch = 61 + zlen rest.
+Proof.
+  cbv zeta. repeat split; try apply hdr61_len;
+    unfold hdr61; cbn [be_put app]; unfold slice; cbn [Nat.sub skipn firstn];
+    try (match goal with |- be_u _ = ?v mod 256 ^ Z.of_nat ?n => exact (be_u_put n v) end); reflexivity.
+Qed.
+
+Lemma zlen_batch_tail b : zlen (enc_batch_tail b) = 40 + zlen (enc_records (kb_records b)).
+Proof. unfold enc_batch_tail. rewrite !zlen_app, !zlen_be_put. lia. Qed.
+
+Lemma enc_batch_eq crc b more :
+  enc_batch crc b ++ more =
+  hdr61 (kb_base b) (9 + zlen (enc_batch_tail b)) (kb_leader_epoch b) (crc (enc_batch_tail b)) (kb_attrs b)
+        (kb_last_delta b) (kb_first_ts b) (kb_max_ts b) (kb_pid b) (kb_pepoch b) (kb_seq b)
+        (zlen (kb_records b)) (enc_records (kb_records b) ++ more).
+Proof.
+  unfold enc_batch, hdr61. cbv zeta.
+  set (L := 9 + zlen (enc_batch_tail b)). set (Cv := crc (enc_batch_tail b)).
+  unfold enc_batch_tail. rewrite <- !app_assoc. rewrite <- app_comm_cons. rewrite <- !app_assoc. reflexivity.
+Qed.
+
+Lemma zlen_enc_batch crc b : zlen (enc_batch crc b) = 61 + zlen (enc_records (kb_records b)).
+Proof.
+  rewrite <- (app_nil_r (enc_batch crc b)), enc_batch_eq.
+  destruct (hdr61_fields (kb_base b) (9 + zlen (enc_batch_tail b)) (kb_leader_epoch b) (crc (enc_batch_tail b))
+              (kb_attrs b) (kb_last_delta b) (kb_first_ts b) (kb_max_ts b) (kb_pid b) (kb_pepoch b) (kb_seq b)
+              (zlen (kb_records b)) (enc_records (kb_records b) ++ [])) as (_ & _ & _ & _ & _ & _ & _ & F).
+  rewrite F, app_nil_r. reflexivity.
+Qed.
+
+Lemma mod_small_signed bits x : 0 <= x < 2 ^ (bits - 1) -> 0 < bits -> x mod 2 ^ bits = x.
+Proof.
+  intros H Hb. apply Z.mod_small. split; [lia|].
+  replace bits with (Z.succ (bits - 1)) by lia. rewrite Z.pow_succ_r by lia. lia.
+Qed.
+
+Section RoundtripBatch.
+  Variable cfg : dcfg.
+  Hypothesis Hint : forall n rest, in_signed 32 n -> c_int cfg (enc_varint n ++ rest) = VOk n rest.
+  Hypothesis Hts : forall n rest, in_signed 64 n -> c_ts cfg (enc_varint n ++ rest) = VOk n rest.
+  Variable crc : bytes -> Z.
+
+  Lemma decode_batch_rt b : batch_wf b -> out (decode_batch cfg (enc_batch crc b)) = Ok (records_of b).
+  Proof.
+    intros (Hbase & Hfts & Hmts & Hattr & Hcomp & Hn & Hsz & Hwf & Hr).
+    rewrite <- (app_nil_r (enc_batch crc b)), enc_batch_eq.
+    destruct (hdr61_fields (kb_base b) (9 + zlen (enc_batch_tail b)) (kb_leader_epoch b) (crc (enc_batch_tail b))
+                (kb_attrs b) (kb_last_delta b) (kb_first_ts b) (kb_max_ts b) (kb_pid b) (kb_pepoch b) (kb_seq b)
+                (zlen (kb_records b)) (enc_records (kb_records b) ++ [])) as (F1 & F2 & F3 & F4 & F5 & F6 & F7 & F8).
+    remember (hdr61 _ _ _ _ _ _ _ _ _ _ _ _ _) as batch eqn:Eb. cbv zeta in *. clear Eb.
+    rewrite app_nil_r in *.
+    pose proof (enc_records_len (kb_records b)) as Hrl.
+    pose proof (zlen_nonneg (enc_records (kb_records b))) as Hnn.
+    unfold decode_batch. rewrite F8, F3, F1, F4, F6, F7.
+    change (256 ^ Z.of_nat 8) with (2 ^ 64). change (256 ^ Z.of_nat 4) with (2 ^ 32). change (256 ^ Z.of_nat 2) with (2 ^ 16).
+    destruct (61 + zlen (enc_records (kb_records b)) <? 61) eqn:E1; [lia|].
+    rewrite (Z.mod_small (kb_attrs b)) by lia. rewrite Hcomp. cbn [Z.eqb negb].
+    fold (wrap_s 64 (kb_base b)). fold (wrap_s 64 (kb_first_ts b)). fold (wrap_s 32 (zlen (kb_records b))).
+    rewrite !to_signed_wrap by (assumption || lia || (unfold in_signed; change (32 - 1) with 31; lia)).
+    destruct (zlen (kb_records b) <=? 0) eqn:E2; [lia|].
+    assert (Hc : (zlen (enc_records (kb_records b)) <? zlen (kb_records b)) = false) by lia.
+    rewrite Hc, andb_false_r.
+    rewrite make_ok by (unfold max_alloc; change (2 ^ 48) with (2 ^ 31 * 2 ^ 17); lia).
+    rewrite out_bind_ok with (a := tt) by reflexivity.
+    pose proof (rec_loop_rt cfg Hint Hts (kb_base b) (kb_first_ts b) (kb_records b)
+                  (S (length (enc_records (kb_records b)))) [] Hwf Hr) as HL.
+    rewrite app_nil_r in HL. apply HL. unfold zlen in Hrl. lia.
+  Qed.
+
+  Lemma batches_loop_rt bs : forall fuel, Forall batch_wf bs -> (length bs < fuel)%nat ->
+    out (batches_loop cfg fuel (enc_batches crc bs)) = Ok (concat (map records_of bs)).
+  Proof.
+    induction bs as [|b bs IH]; intros fuel Hwf Hf.
+    - destruct fuel; [lia|]. reflexivity.
+    - destruct fuel as [|f]; [lia|]. inversion Hwf as [|? ? Hb Hwf']; subst.
+      pose proof Hb as (Hbase & Hfts & Hmts & Hattr & Hcomp & Hn & Hsz & Hrw & Hr).
+      unfold enc_batches. cbn [map concat]. fold (enc_batches crc bs). cbn [batches_loop].
+      pose proof (zlen_enc_batch crc b) as Hlen. pose proof (zlen_batch_tail b) as Htl.
+      pose proof (zlen_nonneg (enc_records (kb_records b))) as Hnn.
+      pose proof (zlen_nonneg (enc_batches crc bs)) as Hnn2.
+      assert (Hbl : be_u (slice (enc_batch crc b ++ enc_batches crc bs) 8 12) = 9 + zlen (enc_batch_tail b)).
+      { rewrite enc_batch_eq.
+        destruct (hdr61_fields (kb_base b) (9 + zlen (enc_batch_tail b)) (kb_leader_epoch b) (crc (enc_batch_tail b))
+                    (kb_attrs b) (kb_last_delta b) (kb_first_ts b) (kb_max_ts b) (kb_pid b) (kb_pepoch b) (kb_seq b)
+                    (zlen (kb_records b)) (enc_records (kb_records b) ++ enc_batches crc bs)) as (_ & F2 & _).
+        cbv zeta in F2. rewrite F2. change (256 ^ Z.of_nat 4) with (2 ^ 32).
+        apply Z.mod_small. change (2 ^ 32) with (2 * 2 ^ 31). lia. }
+      rewrite Hbl, zlen_app.
+      destruct (zlen (enc_batch crc b) + zlen (enc_batches crc bs) <? 12) eqn:E0; [lia|].
+      destruct (9 + zlen (enc_batch_tail b) <=? 0) eqn:E1; [lia|].
+      destruct (zlen (enc_batch crc b) + zlen (enc_batches crc bs) <? 12 + (9 + zlen (enc_batch_tail b))) eqn:E2; [lia|].
+      replace (12 + (9 + zlen (enc_batch_tail b))) with (zlen (enc_batch crc b)) by lia.
+      rewrite take_app, drop_app.
+      rewrite (out_bind_ok _ _ _ (decode_batch_rt b Hb)).
+      rewrite (out_bind_ok _ _ _ (IH f Hwf' ltac:(cbn [length] in Hf; lia))). reflexivity.
+  Qed.
+
+  Lemma decode_segment_rt bs base count created crcv last : Forall batch_wf bs ->
+    out (decode_segment cfg (seg_header base count created ++ enc_batches crc bs ++ seg_footer crcv last))
+    = Ok (concat (map records_of bs)).
+  Proof.
+    intros Hwf. unfold decode_segment.
+    assert (Hl : zlen (seg_header base count created ++ enc_batches crc bs ++ seg_footer crcv last)
+                 = 48 + zlen (enc_batches crc bs)).
+    { unfold seg_header, seg_footer, magic_kafs, magic_end. rewrite !zlen_app, !zlen_be_put.
+      change (zlen [75; 65; 70; 83]) with 4. change (zlen [69; 78; 68; 33]) with 4. lia. }
+    rewrite Hl. pose proof (zlen_nonneg (enc_batches crc bs)) as Hnn.
+    destruct (48 + zlen (enc_batches crc bs) <? 48) eqn:E0; [lia|].
+    assert (Hs : skipn 32 (seg_header base count created ++ enc_batches crc bs ++ seg_footer crcv last)
+                 = enc_batches crc bs ++ seg_footer crcv last).
+    { unfold seg_header, magic_kafs. cbn [be_put app skipn]. reflexivity. }
+    assert (Hm : firstn 4 (seg_header base count created ++ enc_batches crc bs ++ seg_footer crcv last) = magic_kafs).
+    { unfold seg_header, magic_kafs. cbn [app firstn]. reflexivity. }
+    rewrite Hm, Hs, bytes_eqb_refl. cbn [negb].
+    replace (48 + zlen (enc_batches crc bs) - 48) with (zlen (enc_batches crc bs)) by lia.
+    rewrite take_app. apply batches_loop_rt; [assumption|].
+    assert (length bs <= length (enc_batches crc bs))%nat; [|lia].
+    clear -Hwf. induction bs as [|b bs IH]; [cbn; lia|]. inversion Hwf; subst.
+    unfold enc_batches. cbn [map concat]. fold (enc_batches crc bs). rewrite app_length.
+    pose proof (zlen_enc_batch crc b) as H. pose proof (zlen_nonneg (enc_records (kb_records b))).
+    unfold zlen in *. specialize (IH ltac:(assumption)). cbn [length]. lia.
+  Qed.
+End RoundtripBatch.
+
+(* ---------- the concrete decoders ---------- *)
+Lemma signed32_64 n : in_signed 32 n -> in_signed 64 n.
+Proof. unfold in_signed. change (32 - 1) with 31. change (64 - 1) with 63. change (2 ^ 63) with (2 ^ 31 * 2 ^ 32). lia. Qed.
+
+Lemma c07_iceberg crc bs base count created crcv last : Forall batch_wf bs ->
+  out (decode_iceberg (seg_header base count created ++ enc_batches crc bs ++ seg_footer crcv last))
+  = Ok (concat (map records_of bs)).
+Proof.
+  apply (decode_segment_rt (cfg_iceberg true)); cbn [c_int c_ts cfg_iceberg]; intros n rest H.
+  - apply rv_ice_roundtrip, signed32_64, H.
+  - apply rv_ice_roundtrip, H.
+Qed.
+
+Lemma c07_sql crc bs base count created crcv last : Forall batch_wf bs ->
+  out (decode_sql (seg_header base count created ++ enc_batches crc bs ++ seg_footer crcv last))
+  = Ok (concat (map records_of bs)).
+Proof.
+  apply (decode_segment_rt (cfg_sql true)); cbn [c_int c_ts cfg_sql]; intros n rest H.
+  - apply rv_sql32_roundtrip, H.
+  - apply rv_xor64_roundtrip, H.
+Qed.
+
+(* ---------- the writer: BuildSegment puts header ++ batches ++ footer ---------- *)
+Lemma concat_rb_bytes raws : concat (map rb_bytes (map rbatch_of_bytes raws)) = concat raws.
+Proof. induction raws as [|r raws IH]; [reflexivity|]. cbn [map concat rbatch_of_bytes rb_bytes]. rewrite IH. reflexivity. Qed.
+
+Lemma no_empty_payload raws : Forall (fun r : bytes => r <> []) raws ->
+  existsb (fun b => match rb_bytes b with [] => true | _ :: _ => false end) (map rbatch_of_bytes raws) = false.
+Proof.
+  induction 1 as [|x l Hx Hl IH]; [reflexivity|]. cbn [map existsb rbatch_of_bytes rb_bytes].
+  destruct x; [congruence|]. cbn [orb]. exact IH.
+Qed.
+
+Lemma build_segment_shape crc interval raws created :
+  raws <> [] -> Forall (fun r => r <> []) raws ->
+  exists a, build_segment crc interval (map rbatch_of_bytes raws) created = Some a /\
+    a_segment a = seg_header (a_base a) (a_count a) created ++ concat raws ++ seg_footer (crc (concat raws)) (a_last a) /\
+    a_base a = to_signed 64 (be_u (slice (hd [] raws) 0 8)).
+Proof.
+  intros Hne Hall. destruct raws as [|r0 raws]; [congruence|].
+  unfold build_segment. cbn [map].
+  assert (He : existsb (fun b => match rb_bytes b with [] => true | _ :: _ => false end)
+                 (rbatch_of_bytes r0 :: map rbatch_of_bytes raws) = false).
+  { change (rbatch_of_bytes r0 :: map rbatch_of_bytes raws) with (map rbatch_of_bytes (r0 :: raws)).
+    apply no_empty_payload. exact Hall. }
+  rewrite He. eexists. split; [reflexivity|]. cbn [a_segment a_base a_count a_last].
+  cbn [map concat rbatch_of_bytes rb_bytes hd]. rewrite !concat_rb_bytes. split; reflexivity.
+Qed.
+
+Lemma enc_batch_nonempty crc b : enc_batch crc b <> [].
+Proof.
+  intros H. pose proof (zlen_enc_batch crc b) as Hl. rewrite H in Hl.
+  pose proof (zlen_nonneg (enc_records (kb_records b))). rewrite zlen_nil in Hl. lia.
+Qed.
+
+Lemma c07_built crc interval created bs : bs <> [] -> Forall batch_wf bs ->
+  exists a, build_segment crc interval (map rbatch_of_bytes (map (enc_batch crc) bs)) created = Some a /\
+    out (decode_iceberg (a_segment a)) = Ok (concat (map records_of bs)) /\
+    out (decode_sql (a_segment a)) = Ok (concat (map records_of bs)).
+Proof.
+  intros Hne Hwf.
+  destruct (build_segment_shape crc interval (map (enc_batch crc) bs) created) as (a & Hb & Hs & _).
+  - destruct bs; [congruence|discriminate].
+  - apply Forall_forall. intros x Hx. apply in_map_iff in Hx as (b & <- & _). apply enc_batch_nonempty.
+  - exists a. split; [exact Hb|]. rewrite Hs. fold (enc_batches crc bs).
+    split; [apply c07_iceberg|apply c07_sql]; assumption.
+Qed.
+
+(* ---------- the PITR scanner's view of the records ---------- *)
+Lemma scan_record_rt r rest : record_wf r ->
+  out (scan_record (enc_record r ++ rest)) = Ok (kr_ts_delta r, kr_off_delta r, rest).
+Proof.
+  intros [Ha [Hts' [Hod [Hk [Hv [Hkl [Hvl [Hhs [Hhl Hbl]]]]]]]]].
+  unfold scan_record, enc_record. rewrite <- app_assoc.
+  pose proof (zlen_nonneg (enc_record_tail r)) as Hnn.
+  assert (Hb : zlen (enc_record_body r) = 1 + zlen (enc_record_tail r)) by (unfold enc_record_body; apply zlen_cons).
+  assert (R : forall n rest', in_signed 64 n -> rd rv_xor64 (enc_varint n ++ rest') = ret (n, rest')).
+  { intros n rest' Hn. unfold rd. rewrite rv_xor64_roundtrip by assumption. reflexivity. }
+  assert (Hlen64 : in_signed 64 (zlen (enc_record_body r))).
+  { unfold in_signed. change (64 - 1) with 63. change (2 ^ 63) with (2 ^ 31 * 2 ^ 32). lia. }
+  rewrite (bind_ok _ _ _ (R _ (enc_record_body r ++ rest) Hlen64)).
+  destruct (zlen (enc_record_body r) <? 0) eqn:E1; [lia|].
+  assert (Hz : (zlen (enc_record_body r ++ rest) <? zlen (enc_record_body r)) = false).
+  { rewrite zlen_app. pose proof (zlen_nonneg rest). lia. }
+  rewrite Hz.
+  rewrite make_ok by (unfold max_alloc; change (2 ^ 48) with (2 ^ 31 * 2 ^ 17); lia).
+  rewrite out_bind_ok with (a := tt) by reflexivity.
+  rewrite take_app, drop_app. unfold enc_record_body at 1. unfold enc_record_tail.
+  rewrite (bind_ok _ _ _ (R _ _ Hts')). rewrite (bind_ok _ _ _ (R _ _ (signed32_64 _ Hod))).
+  cbn [out ret]. rewrite to_signed_wrap by (assumption || lia). reflexivity.
+Qed.
+
+Lemma scan_records_rt rs : forall fuel rest, Forall record_wf rs -> (length rs <= fuel)%nat ->
+  out (pitr_scan_records fuel (zlen rs) (enc_records rs ++ rest))
+  = Ok (map (fun r => (kr_ts_delta r, kr_off_delta r)) rs).
+Proof.
+  induction rs as [|r rs IH]; intros fuel rest Hwf Hf.
+  - destruct fuel; reflexivity.
+  - destruct fuel as [|f]; [cbn [length] in Hf; lia|]. cbn [pitr_scan_records]. rewrite zlen_cons.
+    pose proof (zlen_nonneg rs) as Hnn. destruct (1 + zlen rs <=? 0) eqn:E; [lia|].
+    inversion Hwf as [|? ? Hw Hwf']; subst.
+    unfold enc_records. cbn [map concat]. fold (enc_records rs). rewrite <- app_assoc.
+    rewrite (out_bind_ok _ _ _ (scan_record_rt r _ Hw)).
+    replace (1 + zlen rs - 1) with (zlen rs) by lia.
+    rewrite (out_bind_ok _ _ _ (IH f rest Hwf' ltac:(cbn [length] in Hf; lia))). reflexivity.
+Qed.
+
+Lemma c07_scan rs rest : Forall record_wf rs ->
+  out (pitr_scan_records (S (length (enc_records rs ++ rest))) (zlen rs) (enc_records rs ++ rest))
+  = Ok (map (fun r => (kr_ts_delta r, kr_off_delta r)) rs).
+Proof.
+  intros H. apply scan_records_rt; [assumption|].
+  pose proof (enc_records_len rs). rewrite app_length. unfold zlen in *. lia.
+Qed.
